@@ -540,6 +540,12 @@ fp_round('math.Ceil', 'RTP')
 fp_round('math.Round', 'RNA')
 
 
+@model('math.IsNaN', doc='IEEE isNaN')
+def _isnan(ex, ins):
+    x = _args(ex, ins)[0]
+    ex.setv(ins, V('(fp.isNaN %s)' % x.term, 'Bool', ins['t']))
+
+
 @model('math.Abs', doc='IEEE abs')
 def _abs(ex, ins):
     x = _args(ex, ins)[0]
